@@ -1266,6 +1266,7 @@ impl<'a> Parser<'a> {
             // Dot-based expressions
             Some('.') => {
                 self.next();
+                let after_dot = self.pos;
                 self.skip_ws();
 
                 // Check for `..` (recursive descent)
@@ -1289,8 +1290,13 @@ impl<'a> Parser<'a> {
                     return self.parse_postfix(first);
                 }
 
-                // Check for identity (just `.`)
-                if self.is_eof() || self.is_expr_terminator() {
+                // Check for identity (just `.`). A name written directly
+                // after the dot is a field even when it spells a keyword
+                // (`.and`, `.end`), as in jq's `FIELD` token; only with
+                // whitespace in between (`. and .x`) is it the operator.
+                let names_field =
+                    self.pos == after_dot && self.peek().is_some_and(char::is_alphabetic);
+                if self.is_eof() || (!names_field && self.is_expr_terminator()) {
                     return Ok(Expr::Identity);
                 }
 
@@ -4802,6 +4808,20 @@ mod tests {
     fn test_identity() {
         assert_eq!(parse(".").unwrap(), Expr::Identity);
         assert_eq!(parse(" . ").unwrap(), Expr::Identity);
+    }
+
+    #[test]
+    fn test_keyword_directly_after_dot_is_a_field() {
+        for kw in ["and", "as", "or", "then", "elif", "else", "end", "catch"] {
+            assert_eq!(parse(&format!(".{kw}")).unwrap(), Expr::Field(kw.into()));
+        }
+        assert_eq!(
+            parse(".and.and[0]").unwrap(),
+            parse(r#".["and"].and[0]"#).unwrap()
+        );
+        // With whitespace the keyword is still the operator.
+        assert!(matches!(parse(". and .x").unwrap(), Expr::And(_, _)));
+        assert!(matches!(parse(".and and .x").unwrap(), Expr::And(_, _)));
     }
 
     #[test]
